@@ -1,4 +1,4 @@
-import BevySyncModel.Proofs.CompWork
+import BevySyncModel.Proofs.CompOrder
 import BevySyncModel.Props.C02
 /-! # C10 — a single writer's updates are observed in order, never invented
 
@@ -35,17 +35,42 @@ theorem C10_host_writer_chain (s : State V) (as : List (Act V)) (hi : HOrd s) (h
     HOrd (run ra false replace s as) :=
   hord_run s as hi ha
 
-/-- **C10, a client writes — partial.**  Proved: the host and every third client behind the relay end
-with the last written value, for every schedule and any number of clients.  Missing (full statement:
-`∀ reader, Sublist reader.shown written` also through the relay): the subsequence chain through
-`hdefer`/`repeat_except_for_client`; the trace oracle checks it on every run instead. -/
-theorem C10_client_writer_ends_with_last_partial (w : Nat) (x : Option V) (s : State V) (as : List (Act V))
+/-- **C10, a client writes.**  The host, and every other client behind the host's relay (`repeat_except_for_client`,
+relay only if the host's value changed — or always, for parent links), display a subsequence of the values the
+writing client wrote, in the order written, for any number of clients and every interleaving. -/
+theorem C10_client_writer_ordered (w : Nat) (x : Option V) (s : State V) (as : List (Act V))
+    (hn : (s.clients.map (·.id)).Nodup) (hw : ∃ c ∈ s.clients, c.id = w) (hc : Clean x s)
+    (hlog : s.written = [] ∧ s.host.shown = [] ∧ ∀ c ∈ s.clients, c.p.shown = []) (ha : ∀ a ∈ as, ClientWrites w a) :
+    List.Sublist (run ra false replace s as).host.shown (run ra false replace s as).written ∧
+    ∀ c ∈ (run ra false replace s as).clients, c.id ≠ w →
+      List.Sublist c.p.shown (run ra false replace s as).written :=
+  client_epoch_ordered w x s as hn hw hc hlog ha
+
+/-- the chain invariant behind it, for every reachable state of a client-writer epoch -/
+theorem C10_client_writer_chain (w : Nat) (s : State V) (as : List (Act V)) (hi : COrd w s)
+    (ha : ∀ a ∈ as, ClientWrites w a) : COrd w (run ra false replace s as) :=
+  cord_run w s as hi ha
+
+/-- … ending with the last one -/
+theorem C10_client_writer_ends_with_last (w : Nat) (x : Option V) (s : State V) (as : List (Act V))
     (hn : (s.clients.map (·.id)).Nodup) (hw : ∃ c ∈ s.clients, c.id = w) (hc : Clean x s)
     (ha : ∀ a ∈ as, ClientWrites w a) (hq : Quiescent (run ra false replace s as)) :
     (run ra false replace s as).host.val = lastWritten x as ∧
       ∀ c ∈ (run ra false replace s as).clients, c.p.val = lastWritten x as := by
   have h := client_epoch_converges w x s as hn hw hc ha hq
   exact ⟨h.1, fun c hcm => (h.2.2.2.2.2 c hcm).1⟩
+
+/-- non-vacuity, client writer: client 1 writes 1, 2, 3; the host polls two of them in one frame; client 2 sees what
+the host relays -/
+example :
+    let s0 : State Nat := { clients := [{ id := 1 }, { id := 2 }] }
+    let as : List (Act Nat) := [.writeC 1 1, .detectC 1, .reactC 1, .writeC 1 2, .detectC 1, .writeC 1 3, .reactC 1,
+      .pollH 1 2, .flushH, .flushH, .detectH, .pollC 2 5, .flushC 2, .flushC 2, .detectC 2, .detectC 1, .reactC 1,
+      .pollH 1 1, .flushH, .detectH, .pollC 2 1, .flushC 2, .detectC 2]
+    (run false false replace s0 as).host.shown = [1, 2, 3] ∧
+    ((run false false replace s0 as).clients.map (·.p.shown)) = [[], [1, 2, 3]] ∧
+    (run false false replace s0 as).written = [1, 2, 3] := by
+  decide
 
 /-- with the pre-repair token skip the order still holds but the end does not (witness of `Props.C02`) -/
 theorem C10_false_ending_with_token_skip :
